@@ -4,7 +4,7 @@
    codec consumes every well-framed PDU under any fragmentation. *)
 From Coq Require Import List Arith NArith Bool Lia ZifyBool ZifyNat ZifyN.
 From RB Require Import Base.Val Model.Rpki Model.RtrClient Spec.Rfc6811 Spec.RtrSpec
-  Proofs.RpkiTrie Proofs.Rpki.
+  Proofs.RpkiTrie Proofs.Rpki Proofs.RtrCodec.
 Import ListNotations.
 Open Scope N_scope.
 
@@ -211,3 +211,173 @@ Proof.
   specialize (IH c st1 t1 W1 V1). destruct (run_msgs fx c ms st1 t1) as [st' t']. destruct IH as [W' [V' I']].
   split; [exact W'|split; [exact V'|]]. intros x Hx. rewrite I', I1 by exact Hx. reflexivity.
 Qed.
+
+(* ======================================================================= *)
+(* From decoded PDUs to the byte stream: the Framed loop of the model runs   *)
+(* on_msg over exactly the PDUs the buffer delivers                          *)
+
+Lemma on_msg_with_buf : forall fx c st t m b,
+  on_msg fx c (with_buf st b) t m
+  = let '(st', t', o) := on_msg fx c st t m in (with_buf st' b, t', o).
+Proof.
+  intros fx c st t m b.
+  destruct m as [sid serial|sid serial| |sid|n flags mx asn|sid serial a b0 d| |code]; cbn [on_msg with_buf c_eod c_serial c_sid c_v c_eod_count]; try reflexivity.
+  - destruct (c_eod st && negb (serial =? c_serial st)); reflexivity.
+  - destruct (0 <? N.land flags 1); destruct (c_eod st); reflexivity.
+  - destruct (fx_eod fx); [destruct (c_eod st)|]; reflexivity.
+Qed.
+
+Lemma run_msgs_with_buf : forall fx c ms st t b,
+  run_msgs fx c ms (with_buf st b) t = let '(st', t') := run_msgs fx c ms st t in (with_buf st' b, t').
+Proof.
+  induction ms as [|m ms IH]; intros st t b; [reflexivity|].
+  cbn [run_msgs]. rewrite on_msg_with_buf. destruct (on_msg fx c st t m) as [[st1 t1] o]. apply IH.
+Qed.
+
+Lemma with_buf_idem : forall st b b', with_buf (with_buf st b) b' = with_buf st b'.
+Proof. reflexivity. Qed.
+
+Theorem drain_runs_parsed : forall fx c buf ms r, parses fx buf ms r ->
+  forall fuel st t sent, c_buf st = buf -> (length ms < fuel)%nat ->
+  exists out, drain fx fuel c st t sent
+              = (with_buf (fst (run_msgs fx c ms st t)) r, snd (run_msgs fx c ms st t), out).
+Proof.
+  intros fx c buf ms r P. induction P as [buf rest D|buf m rest ms r D P IH]; intros fuel st t sent Hb Hf.
+  - destruct fuel; [cbn in Hf; lia|]. cbn [drain]. rewrite Hb, D. exists sent. reflexivity.
+  - destruct fuel; [cbn in Hf; lia|]. cbn [drain run_msgs]. rewrite Hb, D.
+    rewrite on_msg_with_buf. destruct (on_msg fx c st t m) as [[st1 t1] o] eqn:E.
+    destruct (IH fuel (with_buf st1 rest) t1 (sent ++ o) eq_refl ltac:(cbn [length] in Hf; lia)) as [out H].
+    exists out. rewrite H. rewrite run_msgs_with_buf. destruct (run_msgs fx c ms st1 t1) as [st2 t2]. reflexivity.
+Qed.
+
+(* ======================================================================= *)
+(* The system of clients: isolation and cleanup                             *)
+
+Lemma drain_inv : forall fx fuel c st t sent st' t' out,
+  wf_tab t -> v_ok c st -> drain fx fuel c st t sent = (st', t', out) ->
+  wf_tab t' /\ v_ok c st' /\ forall x, cache_of x <> c -> (tmem t' x <-> tmem t x).
+Proof.
+  induction fuel as [|fuel IH]; intros c st t sent st' t' out W V H.
+  - cbn in H. inversion H; subst. split; [exact W|split; [exact V|tauto]].
+  - cbn [drain] in H. destruct (decode fx (length (c_buf st)) (c_buf st)) as [[m|] rest].
+    + destruct (on_msg fx c (with_buf st rest) t m) as [[st1 t1] o] eqn:E.
+      destruct (on_msg_inv fx c (with_buf st rest) t m st1 t1 o W V E) as [W1 [V1 I1]].
+      destruct (IH c st1 t1 (sent ++ o) st' t' out W1 V1 H) as [W' [V' I']].
+      split; [exact W'|split; [exact V'|]]. intros x Hx. rewrite I', I1 by exact Hx. reflexivity.
+    + inversion H; subst. split; [exact W|split; [exact V|tauto]].
+Qed.
+
+Lemma client_event_inv : forall fx c st t e st' t' out,
+  wf_tab t -> v_ok c st -> client_event fx c st t e = (st', t', out) ->
+  wf_tab t' /\ v_ok c st' /\ forall x, cache_of x <> c -> (tmem t' x <-> tmem t x).
+Proof.
+  intros fx c st t e st' t' out W V H. unfold client_event in H.
+  destruct (c_done st); [inversion H; subst; split; [exact W|split; [exact V|tauto]]|].
+  destruct e as [c0 bytes|c0|c0|c0].
+  - destruct (c_open st); [|inversion H; subst; split; [exact W|split; [exact V|tauto]]].
+    destruct (drain fx (S (length (c_buf (with_buf st (c_buf st ++ bytes))))) c (with_buf st (c_buf st ++ bytes)) t []) as [[st2 t2] sent] eqn:D.
+    destruct (drain_inv fx _ c (with_buf st (c_buf st ++ bytes)) t [] st2 t2 sent W V D) as [W2 [V2 I2]].
+    unfold fire_permit in H. destruct (c_permit st2 && c_eod st2); inversion H; subst; (split; [exact W2|split; [exact V2|exact I2]]).
+  - unfold fire_permit in H. cbn [with_permit c_permit c_eod] in H.
+    destruct (true && c_eod st); inversion H; subst; (split; [exact W|split; [exact V|tauto]]).
+  - unfold finish_session in H. inversion H; subst. split; [apply drop_wf; exact W|]. split; [exact V|].
+    intros x Hx. rewrite drop_spec by exact W. tauto.
+  - unfold finish_session in H. inversion H; subst. split; [apply drop_wf; exact W|]. split; [exact V|].
+    intros x Hx. rewrite drop_spec by exact W. tauto.
+Qed.
+
+Definition sys_ok (s : sys) : Prop :=
+  wf_tab (s_tab s) /\ forall i st, nth_error (s_clients s) i = Some st -> v_ok (N.of_nat i) st.
+
+Lemma nth_error_set_nth : forall {A} (l : list A) n x i y,
+  nth_error (set_nth n x l) i = Some y -> (i = n /\ y = x) \/ (i <> n /\ nth_error l i = Some y).
+Proof.
+  induction l as [|a l IH]; intros n x i y H; [destruct n, i; cbn in H; discriminate|].
+  destruct n as [|n]; destruct i as [|i]; cbn in H.
+  - inversion H. left. split; reflexivity.
+  - right. split; [discriminate|exact H].
+  - right. split; [discriminate|exact H].
+  - destruct (IH n x i y H) as [[E1 E2]|[E1 E2]]; [left; split; congruence|right; split; [congruence|exact E2]].
+Qed.
+
+(* C13, "VRPs of one cache are untouched by another's": an event of client c (a TCP
+   segment with any PDUs, soft reset, close, cancel), with or without the fixes,
+   changes no VRP of any other cache *)
+Theorem C13_caches_isolated : forall (fx : fixes) (s : sys) (e : event),
+  sys_ok s ->
+  sys_ok (fst (sys_event fx s e))
+  /\ forall x, cache_of x <> ev_client e -> (tmem (s_tab (fst (sys_event fx s e))) x <-> tmem (s_tab s) x).
+Proof.
+  intros fx s e [W V]. unfold sys_event.
+  destruct (nth_error (s_clients s) (N.to_nat (ev_client e))) as [st|] eqn:E; [|split; [split; assumption|tauto]].
+  destruct (client_event fx (ev_client e) st (s_tab s) e) as [[st' t'] sent] eqn:CE. cbn [fst s_tab s_clients].
+  assert (Vc : v_ok (ev_client e) st) by (rewrite <- (N2Nat.id (ev_client e)); apply V; exact E).
+  destruct (client_event_inv fx (ev_client e) st (s_tab s) e st' t' sent W Vc CE) as [W' [V' I']].
+  split; [|exact I']. split; [exact W'|]. intros i y H.
+  apply nth_error_set_nth in H. destruct H as [[E1 E2]|[E1 E2]].
+  - subst. rewrite N2Nat.id. exact V'.
+  - apply V. exact E2.
+Qed.
+
+(* C13, "all of a cache's VRPs are removed when its session ends": closing or cancelling
+   a live client removes every VRP of its cache, the client terminates (up = false), and a
+   terminated client never touches the table again *)
+Theorem C13_session_end_clears : forall (fx : fixes) (s : sys) (c : N) (e : event) (st : cstate),
+  sys_ok s -> (e = EClose c \/ e = ECancel c) ->
+  nth_error (s_clients s) (N.to_nat c) = Some st -> c_done st = false ->
+  let s' := fst (sys_event fx s e) in
+  (forall x, cache_of x = c -> ~ tmem (s_tab s') x)
+  /\ (exists st', nth_error (s_clients s') (N.to_nat c) = Some st' /\ c_done st' = true /\ c_up st' = false)
+  /\ forall e', ev_client e' = c -> s_tab (fst (sys_event fx s' e')) = s_tab s'.
+Proof.
+  intros fx s c e st [W V] He Hn Hd s'.
+  assert (Hs : exists st1, s' = {| s_clients := set_nth (N.to_nat c) st1 (s_clients s); s_tab := drop_source c (s_tab s) |}
+                           /\ c_done st1 = true /\ c_up st1 = false).
+  { unfold s', sys_event. destruct He as [He|He]; subst e; cbn [ev_client]; rewrite Hn;
+      unfold client_event; rewrite Hd; unfold finish_session; cbn [fst]; eexists; (split; [reflexivity|split; reflexivity]). }
+  destruct Hs as [st1 [Es [D1 U1]]].
+  assert (Nth : nth_error (s_clients s') (N.to_nat c) = Some st1).
+  { rewrite Es. cbn [s_clients]. clear -Hn. revert Hn. generalize (N.to_nat c) as n. generalize (s_clients s) as l.
+    induction l as [|a l IH]; intros n H; destruct n; cbn in *; try discriminate; [reflexivity|apply IH; exact H]. }
+  split; [|split].
+  - intros x Hx. rewrite Es. cbn [s_tab]. rewrite drop_spec by exact W. intros [H _]. apply H. exact Hx.
+  - exists st1. split; [exact Nth|split; assumption].
+  - intros e' He'. unfold sys_event. rewrite He', Nth. unfold client_event. rewrite D1. reflexivity.
+Qed.
+
+(* Before fix 27cfc94: the End of Data closing an incremental round re-installs the
+   initial snapshot *)
+Definition n4' (a b c d m : N) : net := {| n_fam := F4; n_addr := [a; b; c; d]; n_mask := m |}.
+
+Definition refute_msgs : list msg :=
+  [CacheResponse 7; IpPrefix (n4' 10 0 0 0 8) 1 24 65001; IpPrefix (n4' 10 1 0 0 16) 1 16 65002;
+   EndOfData 7 100 0 0 0;
+   CacheResponse 7; IpPrefix (n4' 10 2 0 0 16) 1 16 65003; IpPrefix (n4' 10 1 0 0 16) 0 16 65002;
+   EndOfData 7 101 0 0 0].
+
+Lemma C13_installed_eq_fold_pre_refuted :
+  conforming (map view refute_msgs)
+  /\ let '(st, t) := run_msgs prefix_code 0 refute_msgs c_init rtab_new in
+     c_eod st = true
+     /\ announced (map view refute_msgs) (n4' 10 2 0 0 16, 16, 65003)
+     /\ ~ installed 0 t (n4' 10 2 0 0 16, 16, 65003)
+     /\ ~ announced (map view refute_msgs) (n4' 10 1 0 0 16, 16, 65002)
+     /\ installed 0 t (n4' 10 1 0 0 16, 16, 65002).
+Proof.
+  split; [cbn; exact I|].
+  cbn [run_msgs refute_msgs].
+  vm_compute run_msgs. cbv beta iota.
+  split; [reflexivity|].
+  split; [cbn; split; [discriminate|left; reflexivity]|].
+  split.
+  { unfold installed, tmem, mem. cbn [elt_of fst snd sel n_fam n4']. intros [e [H Hin]]. vm_compute in H. discriminate H. }
+  split.
+  { cbn. intros [H _]. apply H. reflexivity. }
+  unfold installed, tmem, mem. cbn [elt_of fst snd sel n_fam n4']. eexists. split; [vm_compute; reflexivity|]. left. reflexivity.
+Qed.
+
+(* non-vacuity of the fold theorem: the same conforming sequence on the fixed code *)
+Example C13_fold_example :
+  conforming (map view refute_msgs) /\ seen_eod (map view refute_msgs)
+  /\ wf_tab rtab_new.
+Proof. split; [cbn; exact I|]. split; [cbn; auto 10|apply wf_new]. Qed.
